@@ -26,13 +26,16 @@ OPS = ["shell", "exec_out", "streaming_shell", "root", "reboot", "list", "stat",
 ALPHABET = (["connect-ok", "connect-pubkey", "connect-refused", "connect-nokeys", "connect-silent", "close"] + OPS + ["list-empty", "stat-empty", "pull-empty", "push-empty"]
             + ["push-dir", "stream-create", "stream-next"] + ["connect-keytimeout", "pull-bytesio", "push-bytesio"])
 CONNECT_FAILS = ["connect-refused", "connect-nokeys", "connect-silent", "connect-keytimeout"]
+NBASE = len(ALPHABET)        # the exhaustive enumeration runs over these; the symbols below appear in directed and random sequences only
+EXTRA = ["pushdir-empty", "shell-emptycmd", "exec_out-emptycmd", "streaming_shell-emptycmd", "shell-blankcmd"]
+ALPHABET = ALPHABET + EXTRA
 
 
 def gen_cases(tier, seed):
     L = 3 if tier == "quick" else 4
     for impl in ("sync", "async"):
-        for a in range(len(ALPHABET)):
-            for b in range(len(ALPHABET)) if L >= 4 else [None]:
+        for a in range(NBASE):
+            for b in range(NBASE) if L >= 4 else [None]:
                 yield {"kind": "exh", "impl": impl, "prefix": [a] if b is None else [a, b], "L": L}
     A = {n: i for i, n in enumerate(ALPHABET)}
     directed = [["connect-ok", "stream-create", "close", "stream-next"], ["connect-ok", "stream-create", "connect-refused", "stream-next"],
@@ -43,6 +46,8 @@ def gen_cases(tier, seed):
         for gone in ["close"] + CONNECT_FAILS:
             directed.append(["connect-ok", op, gone, op])
             directed.append(["connect-pubkey", op, op, gone, op, "connect-ok", op])
+    for x in EXTRA:
+        directed += [[x], ["connect-ok", x], ["connect-ok", "close", x], ["connect-pubkey", x, "close", x]] + [["connect-ok", g, x] for g in CONNECT_FAILS]
     for impl in ("sync", "async"):
         for d in directed:
             yield {"kind": "directed", "impl": impl, "seq": [A[x] for x in d]}
@@ -200,11 +205,38 @@ def run_sequence(impl, seq, stats, tmp):
                 model = False
             else:
                 op, _, empty = name.partition("-")
-                isdir = empty == "dir"
+                if empty in ("emptycmd", "blankcmd"):
+                    # a command that is empty (or only white space) is still a command: it needs a connection like any other
+                    cmd = "" if empty == "emptycmd" else "  "
+                    sim.scripts[(b"exec:" if op == "exec_out" else b"shell:") + cmd.encode()] = [b"interactive"]
+                    out = sess.call(op, cmd, decode=False)
+                    if model:
+                        stats["steps_connected"] += 1
+                        want = [b"interactive"] if op == "streaming_shell" else b"interactive"
+                        if not out.ok or out.value != want:
+                            viol.append({"mechanism": "connected-op:empty-command", "detail": "%s: %s" % (where, out.brief(100))})
+                    else:
+                        stats["steps_disconnected"] += 1
+                        if out.ok:
+                            viol.append({"mechanism": "no-exception", "detail": "%s returned %s while disconnected" % (where, out.brief(80))})
+                        elif out.exc_name() != "AdbConnectionError":
+                            viol.append({"mechanism": "wrong-exception", "detail": "%s raised %s, expected AdbConnectionError" % (where, out.brief(120))})
+                        if len(sess.core.written) != before_written:
+                            viol.append({"mechanism": "bytes-written", "detail": "%s wrote %d bytes to the transport" % (where, len(sess.core.written) - before_written)})
+                    if bool(sess.dev.available) != model:
+                        viol.append({"mechanism": "available-mismatch", "detail": "after %s: available=%r, model says %r" % (where, sess.dev.available, model)})
+                    if viol:
+                        break
+                    continue
+                if op == "pushdir":
+                    op, isdir_empty = "push", True
+                else:
+                    isdir_empty = False
+                isdir = empty == "dir" or isdir_empty
                 bio = empty == "bytesio"
-                if isdir or bio:
+                if (isdir and not isdir_empty) or bio:
                     empty = ""
-                if isdir and model:
+                if isdir and model and not isdir_empty:
                     # connected: a directory push works (two small files)
                     out = sess.call("push", os.path.join(tmp, "srcdir"), "/ddir", mtime=4)
                     stats["steps_connected"] += 1
@@ -227,7 +259,7 @@ def run_sequence(impl, seq, stats, tmp):
                         out = sess.call(op, io.BytesIO(b"xyz"), path)
                     else:
                         src = os.path.join(tmp, "srcdir" if isdir else "src")
-                        out = sess.call(op, src, "/ddir" if isdir else path)
+                        out = sess.call(op, src, "" if isdir_empty else ("/ddir" if isdir else path))
                     stats["steps_disconnected" if not model else "steps_empty_path_connected"] += 1
                     allowed = set()
                     if not model:
@@ -295,7 +327,7 @@ def run_case(case):
             for k in range(0, rest + 1):
                 if k == 0 and len(pre) > 1 and False:
                     continue
-                for tail in itertools.product(range(len(ALPHABET)), repeat=k):
+                for tail in itertools.product(range(NBASE), repeat=k):
                     seqs.append(list(pre) + list(tail))
             # shorter prefixes (length 1 .. len(pre)-1) are emitted once, by the case whose later prefix symbols are 0
             if len(pre) == 2 and pre[1] == 0:
